@@ -186,6 +186,23 @@ func (dt DateTime) Less(input Any) (Boolean, error) {
 // Add returns the result of dt + input. Returns an
 // error if input does not represent a valid time valued quantity.
 func (dt DateTime) Add(input Quantity) (DateTime, error) {
+	// Handle partial dates by converting the quantity to whole units of the
+	// value's precision first (1 year = 365 days, 1 month = 30 days), as Sub does.
+	if dt.l == dtYearLayout {
+		years, err := input.toYears()
+		if err != nil {
+			return DateTime{}, err
+		}
+		return DateTime{dt.dateTime.AddDate(years, 0, 0), dt.l}, nil
+	}
+	if dt.l == dtMonthLayout {
+		months, err := input.toMonths()
+		if err != nil {
+			return DateTime{}, err
+		}
+		return DateTime{dt.dateTime.AddDate(0, months, 0), dt.l}, nil
+	}
+
 	var result time.Time
 	value := int(decimal.Decimal(input.value).IntPart())
 	switch input.unit {
